@@ -174,23 +174,38 @@ class Registry:
             d.declare("none_v")
             return d.create()
         if k == "opt":
-            d = z3.Datatype("Opt_" + self._sname(ty.args[0]))
-            d.declare("none")
-            d.declare("some", ("val", self.sort(ty.args[0])))
-            return d.create()
+            n = self._sname(ty.args[0])
+            d = z3.Datatype("Opt_" + n)
+            d.declare("none_" + n)
+            d.declare("some_" + n, ("val_" + n, self.sort(ty.args[0])))
+            srt = d.create()
+            srt.none = srt.constructor(0)()
+            srt.some = srt.constructor(1)
+            srt.is_none = srt.recognizer(0)
+            srt.is_some = srt.recognizer(1)
+            srt.val = srt.accessor(1, 0)
+            return srt
         if k == "set":
             return z3.ArraySort(self.sort(ty.args[0]), z3.BoolSort())
         if k == "dict":
-            d = z3.Datatype("Dict_" + self._sname(ty))
-            d.declare("mkdict", ("dom", z3.ArraySort(self.sort(ty.args[0]), z3.BoolSort())),
-                      ("val", z3.ArraySort(self.sort(ty.args[0]), self.sort(ty.args[1]))))
-            return d.create()
+            n = self._sname(ty)
+            d = z3.Datatype("Dict_" + n)
+            d.declare("mk_" + n, ("dom_" + n, z3.ArraySort(self.sort(ty.args[0]), z3.BoolSort())),
+                      ("val_" + n, z3.ArraySort(self.sort(ty.args[0]), self.sort(ty.args[1]))))
+            srt = d.create()
+            srt.mkdict = srt.constructor(0)
+            srt.dom = srt.accessor(0, 0)
+            srt.val = srt.accessor(0, 1)
+            return srt
         if k == "seq":
             return z3.SeqSort(self.sort(ty.args[0]))
         if k == "tuple":
-            d = z3.Datatype("Tup_" + self._sname(ty))
-            d.declare("mktup", *[(f"t{i}", self.sort(a)) for i, a in enumerate(ty.args)])
-            return d.create()
+            n = self._sname(ty)
+            d = z3.Datatype("Tup_" + n)
+            d.declare("mktup_" + n, *[(f"t{i}_{n}", self.sort(a)) for i, a in enumerate(ty.args)])
+            srt = d.create()
+            srt.mktup = srt.constructor(0)
+            return srt
         if k in ("ref", "abs"):
             return z3.DeclareSort(ty.name)
         if k == "enum":
